@@ -634,6 +634,38 @@ def selftest():
                 idx.append(i)
             mut.append(e)
         expect("C07: outcome replaced by the precision panic", mut, idx, "C07")
+        # 7. sweep internals: one intersection node dropped / one ring's backward length altered
+        evs = gen("SWEEP", 60, "sweep")
+        base_rej, _ = rejected(evs, "sweep-base")
+        mut, idx = [], []
+        for i, e in enumerate(evs, 1):
+            e = json.loads(json.dumps(e))
+            bs = [b for b in e["beams"] if len(b["xs"]) > 0]
+            if bs and i not in base_rej and len(idx) < 8:
+                bs[0]["xs"] = bs[0]["xs"][1:]
+                idx.append(i)
+            mut.append(e)
+        expect("SWEEP: one processed intersection node removed from the record", mut, idx, "S6")
+        mut, idx = [], []
+        for i, e in enumerate(evs, 1):
+            e = json.loads(json.dumps(e))
+            rs = [r for r in e["rings"] if r["hasPts"]]
+            if rs and i not in base_rej and len(idx) < 8:
+                rs[0]["nBack"] += 1
+                idx.append(i)
+            mut.append(e)
+        expect("SWEEP: backward ring length of one output record altered", mut, idx, "R1")
+        # 8. open paths: one piece of the open solution moved off its subject line
+        evs = gen("C09", 80, "c09")
+        base_rej, _ = rejected(evs, "c09-base")
+        mut, idx = [], []
+        for i, e in enumerate(evs, 1):
+            e = json.loads(json.dumps(e))
+            if e["solOpen"] and i not in base_rej and len(idx) < 8:
+                e["solOpen"][0] = [[x + 40, y + 40] for x, y in e["solOpen"][0]]
+                idx.append(i)
+            mut.append(e)
+        expect("C09: one open piece moved off its subject line", mut, idx, "C09", frac=0.8)
     except ToolError as e:
         log("TOOL-ERROR:", e)
         ctx.cleanup()
